@@ -13,7 +13,7 @@ LEVEL = "fault_enumeration"
 TLS_CLASSES = [(tls.SSL30, 0x0035, False), (tls.TLS10, 0x0005, False), (tls.TLS10, 0x002F, False), (tls.TLS11, 0x000A, False),
                (tls.TLS12, 0xC02F, False), (tls.TLS12, 0x003C, True), (tls.TLS12, 0xCCA8, False), (tls.TLS13, 0x1301, False),
                (tls.TLS13, 0x1303, False)]
-TLS_SHAPES = ["per_record", "span3", "coalesced", "mss7", "reordered", "duplicated", "coalesced_retransmission", "seq_wrap", "garbage_tail", "swapped_records"]
+TLS_SHAPES = ["per_record", "span3", "coalesced", "mss7", "reordered", "duplicated", "coalesced_retransmission", "seq_wrap", "garbage_tail", "swapped_records", "merged211"]
 QUIC_SHAPES = ["default", "coalesced", "key_update", "zero_rtt", "chacha_retry", "two_flows", "rebinding", "rebinding_early", "tls_resumed_interleaved", "ch_overlap"]
 
 
@@ -61,8 +61,13 @@ def build(case):
         conn = scen.tls_conn(scn, seed)
         e = cap.Ends(4, v6=(case["cls"] % 2 == 1))
         mss = {"per_record": 1460, "span3": 300, "coalesced": 1460, "mss7": 7, "reordered": 300, "duplicated": 300,
-               "coalesced_retransmission": 300, "seq_wrap": 300, "garbage_tail": 300, "swapped_records": 1460}[sh]
-        if sh == "coalesced":
+               "coalesced_retransmission": 300, "seq_wrap": 300, "garbage_tail": 300, "swapped_records": 1460, "merged211": 211}[sh]
+        if sh == "merged211":
+            # consecutive writes share segments of 211 bytes: a segment holds the end of one record, whole records and the start of the next
+            scn["history"] = [("c", 150), ("c", 30), ("c", 400), ("s", 700), ("s", 40), ("s", 3), ("c", 9), ("c", 60), ("s", 2)]
+            conn = scen.tls_conn(scn, seed)
+            pk = scen.tls_packets(conn, mss=mss, merged=True)
+        elif sh == "coalesced":
             # merge consecutive sends of one direction so that one segment carries several records
             sends, out = scen.tls_sends(conn), []
             for d, b in sends:
